@@ -411,21 +411,26 @@ class C10(Proto):
 class C17(Proto):
     id = "C17"
     lean_module = "Props.C17"
-    rule = ("bursts of 2..64 in-sequence requests with the consumer stalled for the whole burst, and mixed streams with "
-            "intermittent reads, under virtual time (deterministic scheduling); the order of deliveries is compared with the "
-            "order of acceptance. distinct = scripts.")
-    technique = "Lean 4 proof (FIFO law of the parked-delivery queue, composed with the acceptance theorem of C04) + trace correspondence under testing/synctest"
-    level_text = ("Theorem: what is parked comes out in queue order, each telegram once; a burst followed by reads yields exactly "
-                  "the accepted telegrams in acceptance order - under the hypothesis the model embodies, that blocked pushInbound "
-                  "goroutines are served in the order they were spawned. Under testing/synctest's scheduling the real client "
-                  "satisfies it on every script.")
-    partial = ("the order in which freshly spawned goroutines reach the channel's wait queue belongs to the Go scheduler; "
-               "the property's real-scheduler violation (DESIGN D17) is not observable under virtual time")
+    streams = [("C17", "knxdrv", 0.95), ("C17rt", None, 0.05)]
+    rule = ("virtual time: bursts of 2..64 in-sequence requests with the consumer stalled for the whole burst, and mixed "
+            "streams with intermittent reads; the order of deliveries is compared with the order of acceptance. REAL time "
+            "(stream C17rt, real goroutines, the Go scheduler decides): tunnel, router and the group layer, 30 rounds per "
+            "script: 2 telegrams back to back while the application waits in its receive; bursts of 2,3,4,8,16,64 while "
+            "nobody receives, then the application reads them all. distinct = scripts.")
+    technique = "Lean 4 proof (FIFO law of the parked-delivery queue, composed with the acceptance theorem of C04) + trace correspondence under testing/synctest + real-time ordering runs"
+    level_text = ("Theorem: what is queued comes out in queue order, each telegram once; a burst followed by reads yields "
+                  "exactly the accepted telegrams in acceptance order. The model's queue is what the code has since fix "
+                  "dc79db5 (one queue, one draining goroutine); before it every parked telegram had its own goroutine and "
+                  "real-time bursts arrived permuted (30 of 30 rounds) - found by the real-time stream, repaired, recorded "
+                  "as fixed. Tie: virtual-time traces equal to the model's; real-time rounds in order.")
+    partial = ("that a single goroutine sending on a channel delivers in program order is Go's channel semantics (trusted); "
+               "the real-time rounds sample schedules, they do not enumerate them")
 
 
 class C13(Proto):
     id = "C13"
     lean_module = "Props.C13"
+    streams = [("C13", "knxdrv", 0.95), ("C13rt", None, 0.05)]
     rule = ("scripts for the real Router on an in-memory socket under virtual time, uncontended (a lock-needing event only "
             "when the send lock is free - a goroutine waiting for sync.Mutex cannot be driven under virtual time): Sends, "
             "failing Sends, routing indications, reads, lost indications (counts 0,1,2,3,31,32,33,64,65535), busy indications "
@@ -491,6 +496,7 @@ class C20(Prop):
     harness = "sock"
     streams = [("C20", "knxdrv", 1.0)]
     budgets = {"quick": 90, "thorough": 900}
+    escalate_budget = 200
     thorough_seeds = 2
     rule = ("real knx.DescribeTunnel against a scripted loopback UDP server and real knx.Discover on a multicast group with "
             "0,1,2,3,5,20 responder sockets (group and unicast), timeouts 1,2,5,20,50,100,150,200,300,500 ms; scripts of 0..20 "
@@ -698,7 +704,7 @@ def run(prop, tier, seed):
     # escalate the search when something broke but no failing input is at hand
     if (proof_broken or all_dis) and not new_findings and tier == "quick":
         for s in (seed + 101, seed + 202):
-            one(s, P.budgets["thorough"], "esc%d" % s)
+            one(s, getattr(P, "escalate_budget", P.budgets["thorough"]), "esc%d" % s)
         new_findings = [f for f in all_findings if not runner.match_known(prop, f, known)]
 
     known_hit = {}
